@@ -433,6 +433,7 @@ func runC10(w *World, r *Report) {
 	r.Min("R2", 8)
 	r.Min("R3", 5)
 	checkHeapContract(w, r, "R4", pkgQueue, "PriorityQueue")
+	c10HandOffChannelIsUnbuffered(w, r)
 	r.Min("R4", 6)
 	r.Min("R5", 3)
 	r.Min("R6", 6)
@@ -696,4 +697,29 @@ func loadedBefore(v ssa.Value, f *ssa.Function) bool {
 		}
 	})
 	return okAll
+}
+
+// c10HandOffChannelIsUnbuffered: processQueueItems recognises a waiter that
+// already left (TTL) by the failure of a non-blocking send on its doneCh; that
+// only works when the channel has no buffer (a buffered send to a dead entry
+// succeeds and consumes the window's slot).
+func c10HandOffChannelIsUnbuffered(w *World, r *Report) {
+	f := w.Fn(pkgQueue, "NewRequest")
+	if f == nil {
+		r.Undec("R5", "queue.NewRequest", token.NoPos, "function not found")
+		return
+	}
+	n, ok := 0, true
+	Instrs(f, func(in ssa.Instruction) {
+		mc, isMC := in.(*ssa.MakeChan)
+		if !isMC {
+			return
+		}
+		n++
+		k, isK := mc.Size.(*ssa.Const)
+		if !isK || k.Value == nil || k.Value.ExactString() != "0" {
+			ok = false
+		}
+	})
+	r.Check(ok && n == 1, "R5", "NewRequest/doneCh-is-unbuffered", f.Pos(), "the waiter's done channel is created without a buffer (the non-blocking hand-off must fail when nobody waits any more)")
 }
